@@ -48,7 +48,9 @@ var apiTexts = map[string]string{
 	"usesHeir": `{"r": @heir}`,
 	// plan shared-parent: heirs of one and of two types (the second root is created with keys optional by default)
 	"heirOfTwo": "{} // {allOf: [\"@typeObj\", \"@typeObj2\"]}",
-	"heirOfOne": "{ // {allOf: \"@typeObj\"}\n  \"b\": 1\n}",
+	// (its own property has the name of a key of @typeObj2 and refers to the root itself, which is registered on itself:
+	// the property is optional - keys are optional by default here - so the root does not require itself)
+	"heirOfOne": "{ // {allOf: \"@typeObj\"}\n  \"ok2\": @heirOfOne\n}",
 	"typeObj2":  "{\n  \"ok2\": 2\n}",
 	// a type that refers to another one, @id, which two roots define differently
 	"usesItem": `{"item": @item}`,
@@ -184,6 +186,7 @@ func (w *apiWorld) call(op, obj, arg string) (res string, h *heldResult, panicke
 		w.content[obj] = arg
 		if arg == "heirOfOne" {
 			w.objs[obj].AreKeysOptionalByDefault = true
+			_ = w.objs[obj].AddType("@heirOfOne", w.objs[obj])
 		}
 		if arg == "usesRule" {
 			_ = w.objs[obj].AddRule("@animals", w.rule)
